@@ -78,10 +78,11 @@ abbrev Disk := List (List BatchOp)
 
 def dbOf (d : Disk) : DB := d.foldl applyBatch []
 
-/-- the record `getLatestCommitID` finds: it reads `a/` through a reader at the reserved version, i.e. the
-NEWEST `a/` record (versions sort newest first, so it is the first entry of that user key) -/
+/-- the record `getLatestCommitID` finds: `Get(lastCommitIDPrefix)` through a `VersionedStore` bound to the
+reserved version 2^64-1, i.e. C10's versioned read — the NEWEST `a/` record (a record at 2^64-1 sorts before,
+and so shadows, every record written at a block height) -/
 def latestPointer (d : Disk) : Option Bytes :=
-  ((dbOf d).find? fun e => userKeyOf? e.1 == some lastPrefix).map (·.2)
+  ((VS.mk (dbOf d) maxVer).getRaw lastPrefix).map fun tv => rawAlive tv.2
 
 /-- `getLatestCommitID`: the height the store opens at -/
 def version (d : Disk) : Nat :=
@@ -96,28 +97,28 @@ def run (sh : Shape) (ptr : PtrAt) (d : Disk) (bs : List BlockIn) : Disk := bs.f
 
 /-! ## `Rollback(target)`: one more batch -/
 
-/-- every versioned entry above `target` under the historical-state, indexer, commitment and commit-id
-prefixes (`pruneVersionWindow`; the latest state `s/` and the pointer `a/` live at the reserved version) -/
-def rollbackDels (db : DB) (target ver : Nat) : List BatchOp :=
-  (db.filter fun e =>
-    decide (target + 1 ≤ versionOf e.1) && decide (versionOf e.1 ≤ ver) &&
-    (hasPrefix hssPrefix e.1 || hasPrefix idxPrefix e.1 || hasPrefix cidPrefix e.1)).map fun e => BatchOp.del e.1
+/-- `pruneVersionWindow` over a prefix: delete every entry of that prefix whose version is in `[lo, hi]` -/
+def pruneDels (db : DB) (pfx : Bytes) (lo hi : Nat) : List BatchOp :=
+  ((bound db pfx (prefixEnd pfx)).filter fun e => lo ≤ versionOf e.1 && versionOf e.1 ≤ hi).map fun e => BatchOp.del e.1
 
-/-- `Store.Rollback(target)`: delete what is above `target`, patch the latest state of the affected keys
-from the historical view at `target` (C10's `rollbackPatch`), and re-point the latest commit id — at the
-reserved version — to the commit id recorded for `target`. `none`: the error returns; `some []`-less:
-`target = version` is a no-op that applies no batch. -/
+/-- the batch of `Store.Rollback(target)` on a store at `version d`: prune the version window
+`(target, version]` under the historical-state, indexer and commit-id/SMT prefixes (the separate commitment
+prefix `c/` holds nothing, as `Root()` is written), patch the latest state of the affected keys from the
+historical view at `target` (C10's `pruneWindow`/`rollbackPatch`), and re-point the latest commit id — at the
+reserved version — to the commit id recorded for `target`.
+`none`: an error return; `some none`: `target = version`, nothing applied. -/
 def rollbackBatch (d : Disk) (target : Nat) : Option (Option (List BatchOp)) :=
   let ver := version d
+  let db := dbOf d
   if target = 0 ∨ target > ver then none
   else if target = ver then some none
   else
-    match smGet (dbOf d) (mkKey (commitIDKey target) target) with
+    match (VS.mk db target).get (commitIDKey target) with
     | none => none   -- "missing commit id at height"
     | some cid =>
-      some (some (rollbackDels (dbOf d) target ver ++
-        rollbackPatch (dbOf d) target (pruneWindow (dbOf d) (target + 1) ver).2 ++
-        [.put (mkKey lastPrefix maxVer) cid]))
+      let (dels, keys) := pruneWindow db (target + 1) ver
+      some (some (dels ++ pruneDels db idxPrefix (target + 1) ver ++ pruneDels db cidPrefix (target + 1) ver ++
+        rollbackPatch db target keys ++ [.put (mkKey lastPrefix maxVer) (rawAlive cid)]))
 
 /-- one step of a node's life -/
 inductive Ev
